@@ -156,7 +156,13 @@ def accessor(ctx, letters):
             _cmp_acc(ctx, sub, res_t, exp.reshape(32, 32, n), ("y", "x", "time"), f"whits(sg=<raster rot {rot} given as (x,y)>, p={p_env})", y, lam, p_env, nd)
             res_o = da.transpose("x", "time", "y").hdc.whit.whits(nodata=nd, sg=sgda, p=p_env)
             _cmp_acc(ctx, sub, res_o, exp.reshape(32, 32, n), ("y", "x", "time"), f"whits(sg=<raster rot {rot}>, p={p_env}) on a (x,time,y) cube", y, lam, p_env, nd)
-            ctx.count(sub, evaluations=2 * N)
+            # float64 cubes reach the kernel without a cast: as they are (time last and contiguous), and as views whose
+            # time axis is strided in memory
+            da64 = da.astype("float64").assign_attrs(da.attrs)
+            for order in (("y", "x", "time"), ("x", "time", "y"), ("time", "y", "x")):
+                r64 = da64.transpose(*order).hdc.whit.whits(nodata=nd, sg=sgda, p=p_env)
+                _cmp_acc(ctx, sub, r64, exp.reshape(32, 32, n), ("y", "x", "time"), f"whits(sg=<raster rot {rot}>, p={p_env}) on a float64 {order} cube", y, lam, p_env, nd)
+            ctx.count(sub, evaluations=5 * N)
             # the kernel result itself against the reference (lambda per pixel; -inf -> passthrough)
             fin = np.isfinite(sg)
             check_fixed(variant, y[fin], valid[fin], float(nd), lam[fin], p_env, ctx, "accessor_sgrid_reference")
